@@ -75,10 +75,22 @@ type Parsed struct {
 	Panicked string
 }
 
+// SafeString is Token.String with a panic of the implementation turned into "".
+func SafeString(t token.Token) (s string) {
+	defer func() {
+		if recover() != nil {
+			s = ""
+		}
+	}()
+	return t.String()
+}
+
 var spellToTok = func() map[string]uint {
 	m := map[string]uint{}
 	for t := token.Token(0); t < 256; t++ {
-		m[t.String()] = uint(t)
+		if s := SafeString(t); s != "" {
+			m[s] = uint(t)
+		}
 	}
 	return m
 }()
